@@ -564,9 +564,10 @@ EvalPCall(X, c, env) ==
       IF args.err THEN args
       ELSE
         LET binds == [i \in 1 .. Len(pr.ps) |->
-                        [n |-> pr.ps[i],
-                         \* literal arguments are bound as resolved values, not literals
-                         r |-> IF c.a[i].r = "val" THEN <<Res(args.r[i][1].v)>> ELSE args.r[i]]]
+                        \* DOC(C15): a literal argument is the literal written in place of the
+                        \* parameter (the pinned tree bound it as a resolved value, so that
+                        \* `x == %p` with p = ["a"] was not `x == ["a"]`; fixed in /repo)
+                        [n |-> pr.ps[i], r |-> args.r[i]]]
             r == EvalRule(X, [n |-> pr.n, w |-> <<>>, lets |-> pr.lets, b |-> pr.b],
                           Append(env, [k |-> "params", binds |-> binds])) IN
         \* DOC(C03 / CLAUSES.md): `not` inverts.  The pinned implementation parses the prefix
